@@ -144,17 +144,33 @@ func substituteBackendParams(template string, groups []string) string {
 		return template
 	}
 
-	result := template
-	// Replace $1, $2, etc. with captured groups
-	// We need to handle this carefully to avoid replacing $10 when we mean $1
-	// Process from highest index to lowest to avoid partial replacements
-	for i := len(groups); i >= 1; i-- {
-		param := fmt.Sprintf("$%d", i)
-		if i-1 < len(groups) {
-			result = strings.ReplaceAll(result, param, groups[i-1])
+	// Substitute in a single pass so that text inserted for one parameter is
+	// never substituted again. At each '$' the longest following number that is
+	// a valid group index wins ($10 is group 10 if it exists, else group 1 + "0").
+	var b strings.Builder
+	for i := 0; i < len(template); {
+		if template[i] != '$' {
+			b.WriteByte(template[i])
+			i++
+			continue
 		}
+		end, group, n := i+1, -1, 0
+		for k := i + 1; k < len(template) && template[k] >= '0' && template[k] <= '9'; k++ {
+			n = n*10 + int(template[k]-'0')
+			if n == 0 || n > len(groups) {
+				break
+			}
+			end, group = k+1, n-1
+		}
+		if group < 0 {
+			b.WriteByte('$')
+			i++
+			continue
+		}
+		b.WriteString(groups[group])
+		i = end
 	}
-	return result
+	return b.String()
 }
 
 func findRoute(
